@@ -75,7 +75,7 @@ def main(ctx):
               "decorated_handler_invoked", "user_error_reported", "protocol_error_raised",
               "shape:none", "shape:args", "shape:kwargs", "shape:both",
               "unsub_in_subscribe_callback", "callee_variant_transitions", "handler_kinds_events",
-              "pattern_subscription_events"):
+              "pattern_subscription_events", "encoded_event_cases"):
         ctx.require(n)
 
 
@@ -811,6 +811,41 @@ def _job_kinds(a):
         if exc is not None or seen_topics != want:
             bad("event-details-topic", "subscription %r (match=%s), EVENT with Details.topic=%r: handler saw "
                 "details.topic %r, expected %r (raised %r)" % (pattern, match, published, seen_topics, want, exc))
+    # ---- the same with a payload codec active and the EVENT's payload encoded: each handler of the
+    # subscription still gets the published arguments, once (exact and pattern-based subscriptions;
+    # the URI inside the envelope is the concrete topic)
+    from props.c10 import JsonEnvelopeCodec
+    for match, pattern, published in (("prefix", "com.pat", "com.pat.x.y"), ("wildcard", "com..upd", "com.dev7.upd"),
+                                      (None, "com.exact.t", None)):
+        for inner_ok in (True, False):
+            l1 = H.L1(observers=False).join()
+            s = l1.session
+            s.set_payload_codec(JsonEnvelopeCodec())
+            got = []
+
+            def mk(tag):
+                def h(*a_, details=None, **k_):
+                    got.append((tag, tuple(a_), dict(k_), getattr(details, "topic", "<no details>")))
+                return h
+            for tag in (0, 1):
+                opts = T.SubscribeOptions(match=match, details_arg="details") if match else \
+                    T.SubscribeOptions(details_arg="details")
+                l1.api(s.subscribe, mk(tag), pattern, options=opts)
+                l1.settle()
+                req = [m for m in l1.transport.sent if isinstance(m, M.Subscribe)][-1].request
+                l1.deliver(M.Subscribed(req, 89))
+            concrete = published or pattern
+            enc = JsonEnvelopeCodec().encode(True, concrete if inner_ok else "com.some.other", [1, "x"], {"k": 2})
+            exc = l1.deliver(M.Event(89, 902, payload=enc.payload, enc_algo=enc.enc_algo,
+                                     enc_serializer=enc.enc_serializer, topic=published))
+            l1.settle()
+            evals += 1
+            stats["encoded_event_cases"] += 1
+            want = [(tag, (1, "x"), {"k": 2}, concrete) for tag in (0, 1)] if inner_ok else []
+            if exc is not None or got != want:
+                bad("encoded-event-delivery", "payload codec active, subscription %r (match=%s), encoded EVENT for %r "
+                    "(envelope URI %s): handler calls %r expected %r (raised %r)" % (
+                        pattern, match, concrete, "matches" if inner_ok else "differs", got, want, exc))
     # ---- one method carrying several stacked @wamp.subscribe decorators (and a function decorated
     # twice): subscribe(obj) sends one SUBSCRIBE per decorator, and an EVENT on any of the topics
     # reaches the method
